@@ -47,6 +47,18 @@ Within3(X, Yd, f, mn, md, ex) ==
                     IN IF Abs(L - R) <= Y \div (GIGA \div md) + 1 THEN 1
                        ELSE IF L < R THEN 2 ELSE 0
 
+(* the weaker test  |X/Yd - f| <= max(X/Yd, f) * mn/md  (what math.isclose(rel_tol=margin) or a   *)
+(* margin taken relative to the obtained frequency accept); used only to NAME a failing item   *)
+WithinOfLarger(X, Yd, f, mn, md) ==
+  /\ mn > 0 /\ Yd <= TWO30 \div f
+  /\ LET Y  == f * Yd
+         D  == Abs(X - Y)
+         Mx == Max2(X, Y)
+     IN D <= (Mx \div md) * mn + mn /\ D * md <= Mx * mn + (Mx \div (GIGA \div md)) + 1
+OutItem(i, X, Yd, f, mn, md, ex) ==
+  LET v == Within3(X, Yd, f, mn, md, ex)
+  IN <<"out" \o ToString(i) \o (IF v = 0 /\ WithinOfLarger(X, Yd, f, mn, md) THEN ":within_margin_of_the_larger" ELSE ""), v>>
+
 (* x is a member of one of the python ranges  <<lo, hi_exclusive, step>>      *)
 InRanges(x, rs) == \E k \in 1..Len(rs) : x >= rs[k][1] /\ x < rs[k][2] /\ (x - rs[k][1]) % rs[k][3] = 0
 InIv(x, iv)     == x >= iv[1] /\ x <= iv[2]
@@ -57,15 +69,17 @@ RECURSIVE MulDiv(_, _, _)
 MulDiv(a, b, c) ==
   IF b = 0 THEN <<0, 0>>
   ELSE LET h  == MulDiv(a, b \div 2, c)
-           q2 == 2 * h[1] + (2 * h[2]) \div c
+           q2 == (2 * h[1]) + ((2 * h[2]) \div c)
            r2 == (2 * h[2]) % c
        IN IF b % 2 = 0 THEN <<q2, r2>>
-          ELSE LET r3 == r2 + a % c
-               IN <<q2 + a \div c + r3 \div c, r3 % c>>
+          ELSE LET r3 == r2 + (a % c)
+               IN <<q2 + (a \div c) + (r3 \div c), r3 % c>>
 
 Pow2(k) == IF k < 0 \/ k > 20 THEN -1 ELSE <<1, 2, 4, 8, 16, 32, 64, 128, 256, 512, 1024, 2048, 4096, 8192, 16384,
                                               32768, 65536, 131072, 262144, 524288, 1048576>>[k + 1]
 
 (* value x8 -> integer, -1 when absent, negative or fractional *)
 Int8(x) == IF x >= 0 /\ x % 8 = 0 THEN x \div 8 ELSE -1
+(* the same for parameters that may legitimately be negative; -99999 when absent / fractional *)
+SInt8(x) == IF x % 8 = 0 THEN x \div 8 ELSE -99999
 =============================================================================
